@@ -33,8 +33,8 @@ CHECKS = {
         note="One-block instructions are distinguished only by variant (three exist). Trusts TLC and the gene<->instruction encoding of the harness."),
     "C09": dict(
         cat="model_checking", ref="DESIGN.md §4 C09",
-        technique="TLA+ spec Generation.tla (claim / finish / fail / commit / abort per child, serial and parallel modes); TLC explores every interleaving and failure position for N=3/4 children on 2/3 workers over two steps with atomicity, freshness, own-randomness and liveness properties; real serial_next / par_next runs in rayon pools of 1-16 threads trace-validated against the same actions",
-        text="The one concurrent component is modelled as explicit per-child actions; TLC checks over all schedules and every set of failing calls that the population is never torn, is replaced by exactly N fresh distinct children or left untouched with the error of a failed child, that no two children share a draw and that every step terminates. Real steps (N in {0,1,2,3,8,33}, pools of 1..16 threads, failures at seeded call positions, perturbed schedules, two consecutive steps on one Generation) are recorded by an instrumented child-maker operator and must be behaviours of that specification.",
+        technique="TLA+ spec Generation.tla (claim / finish / fail / commit / abort per child, serial and parallel modes); TLC explores every interleaving and failure position for N=3/4 children on 2/3 workers over two steps with atomicity, freshness, own-randomness and liveness properties; real serial_next / par_next runs in rayon pools of 1-16 threads trace-validated against the same actions; Evolution.tla (whole-run composition) model-checked and trace-validated against real example-style pipelines",
+        text="The one concurrent component is modelled as explicit per-child actions; TLC checks over all schedules and every set of failing calls that the population is never torn, is replaced by exactly N fresh distinct children or left untouched with the error of a failed child, that no two children share a draw and that every step terminates. Real steps (N in {0,1,2,3,8,33}, pools of 1..16 threads, failures at seeded call positions, perturbed schedules, two consecutive steps on one Generation) are recorded by an instrumented child-maker operator and must be behaviours of that specification. Set-like populations (BTreeSet, HashSet: children with equal keys collapse, the next step makes as many children as the population then has) and VecDeque / LinkedList populations are modelled (kind, key) and run. A second specification, Evolution.tla, composes Selection, Variation, the scorer contract and the generation step into the whole run of the repository's examples; TLC checks it over every initial population for 8 configurations and validates, stage by stage, real count_ones-style pipelines (DynWeighted mix, Select.apply_twice, then_map(GenomeExtractor), Recombine, Mutate, GenomeScorer, serial_next / par_next).",
         note="Real schedules are sampled, not enumerated (no scheduler hook); exhaustive interleavings are on the model. Own randomness is observed as pairwise-distinct 64-bit draws."),
     "C10": dict(
         cat="model_checking", ref="DESIGN.md §4 C10",
@@ -49,32 +49,32 @@ CHECKS = {
     "C06": dict(
         cat="model_checking", ref="DESIGN.md §4 C06",
         technique="TLA+ spec Selection.tla (+Weighted.tla): every random decision an explicit choice; TLC invariant ResultSound over all small populations x configurations; every configuration replayed on Vec/VecDeque/array populations of probe individuals (member identity by address); random selections incl. weighted / nested / type-erased combinations trace-validated by TLC",
-        text="For every selector configuration over every population of 0..3/4 individuals (empty, singleton, ties, duplicates, tournament sizes up to n+1, lexicase case counts around the available results, ragged results) TLC derives the exact set of allowed results (a member index or the documented error with its payload) and checks soundness; the real selectors are run on each of them repeatedly and must return that very element (located by address) or exactly that error, never panic; thousands of random selections, including random weighted trees of the real selectors and their Box<dyn DynSelector> form, must be explainable by the specification.",
+        text="For every selector configuration over every population of 0..3/4 individuals (empty, singleton, ties, duplicates, tournament sizes up to n+1, lexicase case counts around the available results, ragged results) TLC derives the exact set of allowed results (a member index or the documented error with its payload) and checks soundness; the real selectors are run on each of them repeatedly and must return that very element (located by address) or exactly that error, never panic; thousands of random selections, including random weighted trees of the real selectors and their Box<dyn DynSelector> form, must be explainable by the specification. DynWeighted objects are extended step by step with selections in between; tournaments larger than the population are replayed with sizes up to usize::MAX; every configuration is also run on populations of the repository's EcIndividual with shared genomes; large populations (257-1279 members, extremes at chosen positions) are part of the traces.",
         note="Member identity = address equality with an element of the population passed in. Error texts are not compared; payloads are."),
     "C07": dict(
         cat="model_checking", ref="DESIGN.md §4 C07",
         technique="TLA+ Selection.tla: TLC checks Pressure / TournamentExtremes and derives the tournament law by counting k-subsets (closed form C(r-1,k-1)/C(n,k) checked as invariant); trace validation with the drawn subset observed through probe comparisons; empirical winner and subset frequencies compared with the TLC-derived law under an explicit error budget",
-        text="Maximality / minimality and 'winner at least as good as k-1 others', k=1 = uniform, k=n = best are TLC invariants over all small populations; for the real code every observed tournament must have compared exactly k distinct members with the winner maximal among them (the subset is observed because probe individuals log Ord::cmp), and over 60k (thorough 1.5M) draws per configuration the winner frequencies must match the law TLC derived by counting subsets and all C(n,k) subsets must be equally frequent (per-cell alpha 1e-12).",
+        text="Maximality / minimality and 'winner at least as good as k-1 others', k=1 = uniform, k=n = best are TLC invariants over all small populations; for the real code every observed tournament must have compared exactly k distinct members with the winner maximal among them (the subset is observed because probe individuals log Ord::cmp), and over 60k (thorough 1.5M) draws per configuration the winner frequencies must match the law TLC derived by counting subsets and all C(n,k) subsets must be equally frequent (per-cell alpha 1e-12). Best / worst / whole-population tournaments are additionally validated on populations of 257-1279 members whose extremes sit at chosen positions, and on EcIndividual populations with shared genomes.",
         note="Statistical part decides 'within epsilon of the law' (epsilon reported in evidence), not exact equality. Assumes the supplied RNG is uniform."),
     "C08": dict(
         cat="model_checking", ref="DESIGN.md §4 C08",
         technique="TLA+ Selection.tla lexicase: TLC checks survivorship, non-domination, degenerate cases and that the trace-acceptance predicate accepts exactly the runs of the filter; real selections trace-validated from the logged per-case comparisons; winner and first-case frequencies compared with the TLC-derived law",
-        text="On every result matrix of up to 3 individuals x 2/3 cases over 3 values, both polarities, TLC checks that winners survive some case order, are never Pareto-dominated, that zero cases / one individual degenerate correctly and derives each individual's exact selection probability; every real selection logs the comparisons its probe results took part in and TLC checks that the visited cases are distinct, that exactly the survivors were compared at each case, that filtering did not stop early and that the winner is a final survivor; winner frequencies and the first visited case must match the derived law.",
+        text="On every result matrix of up to 3 individuals x 2/3 cases over 3 values, both polarities, TLC checks that winners survive some case order, are never Pareto-dominated, that zero cases / one individual degenerate correctly and derives each individual's exact selection probability; every real selection logs the comparisons its probe results took part in and TLC checks that the visited cases are distinct, that exactly the survivors were compared at each case, that filtering did not stop early and that the winner is a final survivor; winner frequencies and the first visited case must match the derived law. Order-revealing populations (one individual per arrangement of the case values, 3 and 4 cases) make the winner law equal to the law of the case order.",
         note="As C07 for the statistical part. Case order is observed through Ord::cmp of probe results."),
     "C12": dict(
         cat="other", ref="DESIGN.md §4 C12",
         technique="TLA+ spec VariationLaw.tla: probability laws derived by TLC by counting equally likely draw vectors, the property's closed forms checked as ASSUMEs; the real operators sampled 1e5/3e6 times per configuration and compared cell by cell with the derived law under an explicit false-alarm budget",
-        text="A statement about distributions: the specification says what each law is (coins as explicit draws) and TLC checks the property's consequences on it exactly (independence, one expected flip, keep = 1-del, insertion = add(1-del), size preserved iff del = add/(1+add), 1/2 per position, close probability c / default 1/(n+1)); conformance of WithRate, WithOneOverLength, Umad (Vector, Plushy), UniformXo, Bitstring::random*, GeneGenerator (all constructors) is statistical: every outcome cell within a Chernoff-KL bound at per-cell alpha 1e-12 (detectable deviation reported in evidence, about 1.2% absolute at p = 1/2 for quick). No exhaustive claim.",
+        text="A statement about distributions: the specification says what each law is (coins as explicit draws) and TLC checks the property's consequences on it exactly (independence, one expected flip, keep = 1-del, insertion = add(1-del), size preserved iff del = add/(1+add), 1/2 per position, close probability c / default 1/(n+1)); conformance of WithRate, WithOneOverLength, Umad (Vector, Plushy), UniformXo, Bitstring::random*, GeneGenerator (all constructors) is statistical: every outcome cell within a Chernoff-KL bound at per-cell alpha 1e-12 (detectable deviation reported in evidence, about 1.2% absolute at p = 1/2 for quick). No exhaustive claim. Every position of 200- and 70-gene genomes is tallied separately for every input form (one coin per position).",
         note="Assumes SmallRng is uniform. Decides 'within epsilon of the law'. Rates are small rationals; genome lengths 2-4 for exact cell laws."),
     "C13": dict(
         cat="model_checking", ref="DESIGN.md §4 C13",
         technique="TLA+ spec Weighted.tla; TLC over all tree shapes <= 3/4 leaves x weights 0..3, dynamic lists and construction sequences (Proportional as cross-multiplied invariant for every shape); replay on real Weighted/WeightedPair/WithWeightedItem/DynWeighted with marker members; empirical member frequencies vs the law",
-        text="TLC checks for every binary tree shape and weight assignment that exactly one member of positive weight is delegated to, that P(leaf) x total = weight for every nesting, that all-zero is the zero-weight error and that chain construction overflows exactly when the running sum exceeds the maximum (sticky afterwards); each tree, list and construction sequence is executed on the real combinators (members are markers that count invocations and return an identifiable individual) and member frequencies over 60k/1M selections are compared with the derived law.",
+        text="TLC checks for every binary tree shape and weight assignment that exactly one member of positive weight is delegated to, that P(leaf) x total = weight for every nesting, that all-zero is the zero-weight error and that chain construction overflows exactly when the running sum exceeds the maximum (sticky afterwards); each tree, list and construction sequence is executed on the real combinators (members are markers that count invocations and return an identifiable individual) and member frequencies over 60k/1M selections are compared with the derived law. ScaleInvariant (only ratios matter) is checked by TLC and licenses running the same laws with weights scaled to just below 2^32; dynamic lists are also extended after they were first asked to select.",
         note="Trees are carrier enums around the real WeightedPair (types are static, shapes are data). Weights near u32::MAX are modelled near WMax=100."),
     "C14": dict(
         cat="model_checking", ref="DESIGN.md §4 C14",
         technique="TLA+ spec Compose.tla (big-step Eval threading stream position, call count and call log); TLC over every well-typed expression of depth <= 2 x input shape x failure position with LeftToRight / StopsAtFirstFailure / ErrorLocates invariants; every case replayed on the real combinators built through the Composable API; random deeper compositions trace-validated",
-        text="Evaluation order, data flow, randomness consumption and error location of then / and / map (pair, array, vector) / repeat / identity / constant and the Mutate / Recombine wrappers (by value and by reference) are an explicit evaluation function; TLC enumerates all small well-typed expressions with a failure injected at every component call and checks the clauses; each case is executed on the real combinators with component operators that log (id, input, stream position) under a counting RNG, comparing value, error path, call log and words consumed; random compositions of depth 5 (tens of calls) are checked by TLC against the same function.",
+        text="Evaluation order, data flow, randomness consumption and error location of then / and / map (pair, array, vector) / repeat / identity / constant and the Mutate / Recombine wrappers (by value and by reference) are an explicit evaluation function; TLC enumerates all small well-typed expressions with a failure injected at every component call and checks the clauses; each case is executed on the real combinators with component operators that log (id, input, stream position) under a counting RNG, comparing value, error path, call log and words consumed; random compositions of depth 5 (tens of calls) are checked by TLC against the same function. Select / GenomeExtractor / GenomeScorer are expressions of the specification too (scorer-call log, the genome maker's error passed through untouched), including pipeline-shaped compositions; error steps are read independently of the wording of error messages.",
         note="Combinator and error types are private to ec-core; the harness builds compositions with the public Composable methods and reads error variants from Debug/Display/source(). Select / GenomeExtractor / GenomeScorer wrappers are covered under C15-C17."),
     "C16": dict(
         cat="other", ref="DESIGN.md §4 C16",
@@ -89,7 +89,7 @@ CHECKS = {
     "C18": dict(
         cat="model_checking", ref="DESIGN.md §4 C18",
         technique="TLA+ spec Choices.tla; TLC over all collections <= 4/6 (with duplicates) and all size pairs; every case replayed in all 17 conversion flavours and 6 collectors; random uses trace-validated; position frequencies vs the uniform law",
-        text="Empty collections must be rejected at build time in every flavour (Vec / array / slice; owning, borrowing, cloning; into_ / to_distribution; OneOfCloning::new, ChooseCloning::new, the macro); num_choices must equal the number of members through the trait by value, & and &mut; samples must be that very member (by address for borrowing flavours) and each position equally likely (60k / 2M samples per flavour and size); collection generators must return exactly the requested number of consecutive stream elements for Vec, Bitstring, Plushy and a nested population, consulting the element generator exactly that many times.",
+        text="Empty collections must be rejected at build time in every flavour (Vec / array / slice; owning, borrowing, cloning; into_ / to_distribution; OneOfCloning::new, ChooseCloning::new, the macro); num_choices must equal the number of members through the trait by value, & and &mut; samples must be that very member (by address for borrowing flavours) and each position equally likely (60k / 2M samples per flavour and size); collection generators must return exactly the requested number of consecutive stream elements for Vec, Bitstring, Plushy and a nested population, consulting the element generator exactly that many times. Every size 0..600 and large sizes are requested from every sized constructor (Bitstring::random, ::random_with_probability, collection generators for Vec / Bitstring / Plushy); uniformity is also checked for 100-300 members; zero-length arrays are converted in a separate build target whose failure to compile is reported as the violation.",
         note="Statistical part at per-cell alpha 1e-12. Assumes the RNG is uniform."),
     "C15": dict(
         cat="model_checking", ref="DESIGN.md §4 C15",
